@@ -144,7 +144,8 @@ func RunWorker(prop string, seed uint64, worker, cases int, scratch, out string,
 						if (ai*len(seconds)+bi)%nworkers != worker%nworkers || sess.Dead || !ok {
 							continue
 						}
-						if !full && !destroyer(a) && r.Intn(100) >= 30 {
+						same := a.Method == b.Method && a.URL == b.URL && a.Body == b.Body // the same request submitted twice
+						if !full && !destroyer(a) && !same && r.Intn(100) >= 30 {
 							continue
 						}
 						sess.Convoy(a, b)
